@@ -1120,6 +1120,10 @@ class Process(StateMachine, persistence.Savable, metaclass=ProcessStateMachineMe
             # Already pausing
             return self._pausing
 
+        if self._killing is not None:
+            # A pending kill takes precedence, the process will not get to pause anymore
+            return False
+
         if self._stepping:
             # Ask the step function to pause by setting this flag and giving the
             # caller back a future
@@ -1251,6 +1255,8 @@ class Process(StateMachine, persistence.Savable, metaclass=ProcessStateMachineMe
             interrupt_exception = process_states.KillInterruption(msg_text)
             self._set_interrupt_action_from_exception(interrupt_exception)
             self._killing = self._interrupt_action
+            # This supersedes a pending pause (whose action has just been cancelled)
+            self._pausing = None
             self._state.interrupt(interrupt_exception)
             return cast(futures.CancellableAction, self._interrupt_action)
 
